@@ -189,7 +189,7 @@ static void execOp(int code, int slot, int64_t arg, Ent* self) {
     const RunSpec& s = *C.spec;
     while (C.pos < s.plan.size() && s.plan[C.pos].task != 0) C.pos++;
     if (C.pos >= s.plan.size()) {
-      if (!C.scriptDone) { C.scriptDone = true; C.stopPeers = true; requestTail(); logEvent("script_done"); for (int i = 0; i < 6; ++i) if (C.clientSlot[i] && C.clientSlot[i]->suspended) { C.clientSlot[i]->suspended = false; ((Server::Client*)C.clientSlot[i]->handle)->resume(); } }
+      if (!C.scriptDone) { C.scriptDone = true; C.stopPeers = true; requestTail(); logEvent("script_done"); { Host h; C.pendOwn->clear(); C.pendAny->clear(); } /* nothing new happens in the quiet tail */ for (int i = 0; i < 6; ++i) if (C.clientSlot[i] && C.clientSlot[i]->suspended) { C.clientSlot[i]->suspended = false; ((Server::Client*)C.clientSlot[i]->handle)->resume(); } }
       C.tailTicks++;
       if (allSettled() && !C.finishing) { C.finishing = true; logEvent("settled"); C.interruptsInvoked++; C.srv->interrupt(); C.interruptsCompleted++; C.lastInterruptDoneSeq = ++C.seq; }
       return;
